@@ -78,7 +78,11 @@ pub fn split(raw: &str, fmt: Fmt) -> Option<Msg> {
                 _ => return None,
             };
             let s = |k: &str| v.get(k).and_then(|x| x.as_str()).map(String::from);
-            let discs: Vec<String> = v.get("disclosures")?.as_arr()?.iter().map(|d| d.as_str().map(String::from)).collect::<Option<Vec<_>>>()?;
+            // (no `disclosures` member: nothing is disclosed - whether an implementation accepts such input is its business)
+            let discs: Vec<String> = match v.get("disclosures") {
+                None => vec![],
+                Some(d) => d.as_arr()?.iter().map(|d| d.as_str().map(String::from)).collect::<Option<Vec<_>>>()?,
+            };
             let kb = match v.get("kb_jwt") {
                 None | Some(J::Null) => None,
                 // an empty string is how "no key binding" looks when a compact jwt~..~ is carried over member by member
